@@ -144,6 +144,8 @@ def q__SegwitChecker__witness_program_tuple(self, tx_context, puzzle_script, sol
             raise ScriptError()
     else:
         witness_program = puzzle_script[2:]
+        if not is_p2sh and len(tx_context.solution_script) > 0:
+            raise ScriptError()
         if len(solution_stack) > 0:
             err = errno.WITNESS_MALLEATED_P2SH if is_p2sh else errno.WITNESS_MALLEATED
             raise ScriptError()
